@@ -23,8 +23,8 @@ class Scenario(object):
         self.sm_type, self.instances = sm_type, instances
         self.extra = extra or {}
 
-    def start(self):
-        s = simmod.Sim(instances=self.instances)
+    def start(self, **sim_kw):
+        s = simmod.Sim(instances=sim_kw.pop("instances", self.instances), **sim_kw)
         arn = ARN + "m1"
         s.put_machine(arn, json.loads(json.dumps(self.machine)), type=self.sm_type)
         for k, (m, t) in (self.extra.get("machines") or {}).items():
